@@ -46,7 +46,7 @@ def nslots(p):
             n += 1
         elif k == "V":
             n += s["n"]
-        elif k in ("G", "O"):
+        elif k in ("G", "O", "J"):
             n += nslots(s["body"])
         elif k == "C":
             n += max(nslots(s["brs"][0]), nslots(s["brs"][1]))
@@ -67,7 +67,7 @@ def layout(p, dec, path=()):
             out += [True] * s["n"]
         elif k == "G":
             out += layout(s["body"], dec, here + ("g",))
-        elif k == "O":
+        elif k in ("O", "J"):
             out += layout(s["body"], dec, here + ("o",))
         elif k == "C":
             b = dec[here]
@@ -102,6 +102,14 @@ def build(prog, v_mode="modular_vmap"):
             elif k == "O":
                 body = s["body"]
                 rows.append(jax.checkpoint(lambda: emit(body, here + ("o",), lookup))())
+            elif k == "J":
+                body = s["body"]
+
+                @jax.custom_jvp
+                def cj(z):
+                    return emit(body, here + ("o",), lookup) + (0 * z).astype(jnp.uint32)
+                cj.defjvp(lambda p, t: (cj(*p), jnp.zeros((nslots(body), 2), dtype=jax.dtypes.float0)))
+                rows.append(cj(jnp.zeros((), jnp.float32)))
             elif k == "C":
                 m = max(nslots(s["brs"][0]), nslots(s["brs"][1]))
 
